@@ -111,6 +111,7 @@ type run struct {
 	faultSeq     int64
 	cbErr        bool
 	left         map[string]string
+	retried      bool              // a failed phase-two request was delivered a second time
 	leftPhaseOne map[string]string // XA branches the engine holds when phase one has returned
 	phase2       int64             // clock when phase two began
 }
@@ -208,12 +209,6 @@ func execute(c Case, plan string) (*run, *pt.Failure) {
 		return nil
 	})
 	r.cbErr = gerr != nil
-	env.Srv.ClearFaults()
-	if f != nil {
-		r.fired = f.Fired() > 0
-	} else {
-		r.fired = true
-	}
 	// phase two, as the coordinator would drive it
 	r.leftPhaseOne = unquoted(env.Srv.XABranches())
 	r.phase2 = jclock.Tick()
@@ -231,6 +226,36 @@ func execute(c Case, plan string) (*run, *pt.Failure) {
 			r.status[b.ID] = st
 		} else {
 			st, _ := env.TC.BranchCommit(env.Sess, b, 5*time.Second)
+			r.status[b.ID] = st
+		}
+	}
+	// the injected failure may hit a command of phase two as well (XA COMMIT / XA ROLLBACK are XA commands)
+	env.Srv.ClearFaults()
+	if f != nil {
+		r.fired = f.Fired() > 0
+	} else {
+		r.fired = true
+	}
+	// a phase-two request that was not answered with success is delivered again (the coordinator retries)
+	if f != nil && r.fired && (strings.HasPrefix(plan, "db:")) {
+		for i := len(r.branches) - 1; i >= 0; i-- {
+			b := r.branches[i]
+			if b.Type != branch.BranchTypeXA {
+				continue
+			}
+			st, delivered := r.status[b.ID]
+			if !delivered || st == branch.BranchStatusPhasetwoCommitted || st == branch.BranchStatusPhasetwoRollbacked {
+				continue
+			}
+			if r.faultSeq < r.phase2 {
+				continue // the failure belonged to phase one: nothing to retry in phase two
+			}
+			r.retried = true
+			if r.cbErr {
+				st, _ = env.TC.BranchRollback(env.Sess, b, 5*time.Second)
+			} else {
+				st, _ = env.TC.BranchCommit(env.Sess, b, 5*time.Second)
+			}
 			r.status[b.ID] = st
 		}
 	}
@@ -402,7 +427,7 @@ func judge(c Case, plan string, r *run) *pt.Failure {
 				allCommitted = false
 			}
 		}
-		inherent := c.Target == "fresh" && strings.HasPrefix(version, "5.")
+		inherent := c.Target == "fresh" && !detaches(version)
 		if !allCommitted && plan == "none" && !inherent {
 			return pt.Failf(sig("commit-not-performed"), "the global transaction committed, a prepared branch was not committed in phase two (answers %v)\n%s", r.status, info())
 		}
@@ -441,6 +466,13 @@ func judge(c Case, plan string, r *run) *pt.Failure {
 }
 
 func state(m map[string]string, x string) string { return m[x] }
+
+// detaches: from 8.0.29 on a prepared branch can be finished by any session.
+func detaches(v string) bool {
+	var a, b, c int
+	fmt.Sscanf(v, "%d.%d.%d", &a, &b, &c)
+	return a > 8 || (a == 8 && (b > 0 || c >= 29))
+}
 
 // unquoted strips the quotes the engine keeps around XA identifiers.
 func unquoted(m map[string]string) map[string]string {
@@ -506,6 +538,9 @@ func runScenario(c Case) *pt.Failure {
 			continue
 		}
 		ctx.Rec.Label("plan:"+planClass(p), 1)
+		if r.retried {
+			ctx.Rec.Label("phase-two-redelivered", 1)
+		}
 		if fl := judge(c, p, r); fl != nil {
 			fl.Detail = "(plan " + p + ") " + fl.Detail
 			planFailed = p
@@ -530,15 +565,17 @@ var once sync.Once
 
 func TestMain(m *testing.M) {
 	version = "8.0.30"
-	if os.Getenv("VERIF_SHARD") != "" && (os.Getenv("VERIF_SHARD")[len(os.Getenv("VERIF_SHARD"))-1]-'0')%2 == 1 {
-		version = "5.7.30"
+	if sh := os.Getenv("VERIF_SHARD"); sh != "" {
+		// server profiles by shard: prepared branches detach from their session from 8.0.29 on; the version
+		// text may carry a build suffix
+		version = []string{"8.0.30", "5.7.30", "8.0.28-debug", "5.7.44-log"}[int(sh[len(sh)-1]-'0')%4]
 	}
 	if v := os.Getenv("C17_VERSION"); v != "" {
 		version = v
 	}
 	env = atenv.Get(atenv.Options{XA: true, Version: version})
 	env.Srv.SetLockWait(200 * time.Millisecond)
-	ctx.Rec.SetRule("(1) identifiers: xids (ip:port:id shapes, printable tokens with '-' ':' '_' digits, up to 64 bytes) × branch ids (boundary-biased uint64): XaIdBuild(x,b).String()==x-b, accessors, byte-form round trip, distinct pairs ⇒ distinct identifiers. (2) scenarios: 1–3 statements (INSERT/UPDATE/DELETE/upsert/SELECT) through the XA proxy inside a global transaction, autocommit or explicit transaction, db or pinned Conn, business decision commit/rollback, phase two delivered by the coordinator to the process holding the connection or after clearing the resource's keeper map (a process that never saw phase one); server profile 8.0.30 (prepared branches detach) on even shards and 5.7.30 on odd shards; fault enumeration: an error, and for every second position a dropped connection, injected at every XA command and business statement of the fault-free run, register refusal and transport error. Oracle: an automaton over the engine's XA command journal accepts only START·END·PREPARE·(COMMIT|ROLLBACK) / START·END·ROLLBACK prefixes per identifier with ≤1 finisher; the identifier equals <xid>-<branch id from the register reply>; the reply precedes XA START on the logical clock; every write happens inside an ACTIVE branch; failure before a successful PREPARE ⇒ caller error and no COMMIT; committed global ⇒ tables equal the plain driver's result, rolled-back global ⇒ tables unchanged; phase-two answers agree with what the database did; no branch left behind. Non-trivial: a scenario that reached PREPARE or had a fault at an XA command. Distinct by (mode, statement kinds, decision, target, server).")
+	ctx.Rec.SetRule("(1) identifiers: xids (ip:port:id shapes, printable tokens with '-' ':' '_' digits, up to 64 bytes) × branch ids (boundary-biased uint64): XaIdBuild(x,b).String()==x-b, accessors, byte-form round trip, distinct pairs ⇒ distinct identifiers. (2) scenarios: 1–3 statements (INSERT/UPDATE/DELETE/upsert/SELECT) through the XA proxy inside a global transaction, autocommit or explicit transaction, db or pinned Conn, business decision commit/rollback, phase two delivered by the coordinator to the process holding the connection or after clearing the resource's keeper map (a process that never saw phase one); server profiles by shard: 8.0.30 (prepared branches detach), 5.7.30, 8.0.28-debug and 5.7.44-log (version texts with a build suffix); fault enumeration: an error, and for every second position a dropped connection, injected at every XA command and business statement of the fault-free run, register refusal and transport error. Oracle: an automaton over the engine's XA command journal accepts only START·END·PREPARE·(COMMIT|ROLLBACK) / START·END·ROLLBACK prefixes per identifier with ≤1 finisher; the identifier equals <xid>-<branch id from the register reply>; the reply precedes XA START on the logical clock; every write happens inside an ACTIVE branch; failure before a successful PREPARE ⇒ caller error and no COMMIT; committed global ⇒ tables equal the plain driver's result, rolled-back global ⇒ tables unchanged; phase-two answers agree with what the database did; no branch left behind. Non-trivial: a scenario that reached PREPARE or had a fault at an XA command. Distinct by (mode, statement kinds, decision, target, server).")
 	ctx.Rec.Assume("memsql's XA state machine (incl. the 8.0.29 detach-on-prepare rule) stands for MySQL's", "the coordinator delivers phase two once per branch, after the global decision")
 	ctx.RunWitnesses(func(f stats.Finding) *pt.Failure {
 		var c Case
